@@ -2,6 +2,7 @@ package c20
 
 import (
 	"fmt"
+	"io/fs"
 	"os"
 	"path/filepath"
 	"strings"
@@ -42,7 +43,7 @@ type Fault struct {
 }
 
 type Case struct {
-	Via   string `json:"via"` // exec | consult
+	Via   string `json:"via"` // exec | consult | consultfs (consult through a host file system whose files return short reads)
 	Steps []Step `json:"steps"`
 }
 
@@ -132,6 +133,32 @@ func (c Case) String() string {
 		fmt.Fprintf(&b, "step %d: load (after %d fault-injected variants %v):\n%s", k+1, len(s.Faults), s.Faults, render(s.Items, nil))
 	}
 	return b.String()
+}
+
+// chunkFS is a file system whose files hand out their content in short reads.
+type chunkFS struct {
+	fs.FS
+	n int
+}
+
+type chunkFile struct {
+	fs.File
+	n int
+}
+
+func (c chunkFS) Open(name string) (fs.File, error) {
+	f, err := c.FS.Open(name)
+	if err != nil {
+		return nil, err
+	}
+	return chunkFile{f, c.n}, nil
+}
+
+func (f chunkFile) Read(p []byte) (int, error) {
+	if len(p) > f.n {
+		p = p[:f.n]
+	}
+	return f.File.Read(p)
 }
 
 // ---- model -----------------------------------------------------------------------------------------------
@@ -269,7 +296,7 @@ func check(c Case) (st stats, err error) {
 	m := model{}
 	var dir string
 	fileNo := 0
-	if c.Via == "consult" {
+	if c.Via == "consult" || c.Via == "consultfs" {
 		d, e := os.MkdirTemp("", "c20-")
 		if e != nil {
 			return st, fmt.Errorf("infrastructure: %v", e)
@@ -279,14 +306,20 @@ func check(c Case) (st stats, err error) {
 	}
 	load := func(text string) *sut.ErrInfo {
 		st.loads++
-		if c.Via != "consult" {
+		if c.Via != "consult" && c.Via != "consultfs" {
 			return i.Exec(text, 5_000_000)
 		}
 		fn := filepath.Join(dir, fmt.Sprintf("f%d.pl", fileNo))
 		if e := os.WriteFile(fn, []byte(text), 0o644); e != nil {
 			return &sut.ErrInfo{Kind: "go", Msg: "infrastructure: " + e.Error()}
 		}
-		res := i.Query(fmt.Sprintf("consult('%s').", fn), []string{}, 1, 5_000_000)
+		target := fn
+		if c.Via == "consultfs" {
+			// the host's file system: reads return at most 13 bytes at a time (any io.Reader may do so)
+			i.P.FS = chunkFS{os.DirFS(dir), 13}
+			target = fmt.Sprintf("f%d.pl", fileNo)
+		}
+		res := i.Query(fmt.Sprintf("consult('%s').", target), []string{}, 1, 5_000_000)
 		if res.Err != nil {
 			return res.Err
 		}
@@ -462,7 +495,7 @@ func genFaults(t *rapid.T, items []Item, all bool) []Fault {
 
 func genCase(all bool) *rapid.Generator[Case] {
 	return rapid.Custom(func(t *rapid.T) Case {
-		c := Case{Via: []string{"exec", "exec", "consult"}[u(t, 3, "via")]}
+		c := Case{Via: []string{"exec", "exec", "consult", "consultfs"}[u(t, 4, "via")]}
 		serial := 0
 		for k, n := 0, 1+u(t, 4, "nloads"); k < n; k++ {
 			items, _ := genText(t, &serial)
@@ -479,7 +512,7 @@ func genCase(all bool) *rapid.Generator[Case] {
 func TestProp(t *testing.T) {
 	r := h.Start(t, "C20")
 	defer r.Finish(t)
-	r.Rule("rapid-generated histories of 1-4 loads on one interpreter (through Exec, or through consult/1 of a file - a new file name after every successful load, the same name again after a failed one), optionally followed by assertz on a dynamic predicate. A text defines 1-3 of the predicates p1..p4 (unary) and w3/3 (structured head arguments) by clauses carrying serial numbers (facts, rules, and rules whose body is a top-level disjunction - one clause of the text, two alternatives in source order), in runs of 1-7 clauses (now and then 30-74), several interleaved runs for predicates declared discontiguous, with dynamic/discontiguous/multifile declarations in the three forms (p/1, [p/1], (p/1, q/1)), declaration-only predicates, output directives between runs of different predicates and initialization/1 goals that print what they can see. Fault injection: before the good text is loaded, one fault of each kind is injected at every position (quick: at a third of the positions) - a syntax error (unbalanced bracket, stray token, unterminated quoted atom / string / comment / 0', missing end), a non-callable clause, a failing / throwing / unknown directive, a clause that makes a predicate discontiguous without declaration - and every such text is loaded on the same interpreter. Oracle: a model map predicate -> clause list. A faulty text must make the load return an error and leave every predicate (of this and of earlier texts) enumerating exactly as before (answers, or the same existence error); a good text must load, give every predicate of the text exactly its clauses in source order (replacing the earlier definition unless multifile on both sides, then appended), the directives' output in text order followed by the initialization goals' output computed on the loaded database. Non-trivial: a text with >= 2 predicates or interleaved runs loaded over an earlier text, with faults injected. Distinct by case.",
+	r.Rule("rapid-generated histories of 1-4 loads on one interpreter (through Exec, through consult/1 of a file, or through consult/1 on a host file system whose files return 13 bytes per read - a new file name after every successful load, the same name again after a failed one), optionally followed by assertz on a dynamic predicate. A text defines 1-3 of the predicates p1..p4 (unary) and w3/3 (structured head arguments) by clauses carrying serial numbers (facts, rules, and rules whose body is a top-level disjunction - one clause of the text, two alternatives in source order), in runs of 1-7 clauses (now and then 30-74), several interleaved runs for predicates declared discontiguous, with dynamic/discontiguous/multifile declarations in the three forms (p/1, [p/1], (p/1, q/1)), declaration-only predicates, output directives between runs of different predicates and initialization/1 goals that print what they can see. Fault injection: before the good text is loaded, one fault of each kind is injected at every position (quick: at a third of the positions) - a syntax error (unbalanced bracket, stray token, unterminated quoted atom / string / comment / 0', missing end), a non-callable clause, a failing / throwing / unknown directive, a clause that makes a predicate discontiguous without declaration - and every such text is loaded on the same interpreter. Oracle: a model map predicate -> clause list. A faulty text must make the load return an error and leave every predicate (of this and of earlier texts) enumerating exactly as before (answers, or the same existence error); a good text must load, give every predicate of the text exactly its clauses in source order (replacing the earlier definition unless multifile on both sides, then appended), the directives' output in text order followed by the initialization goals' output computed on the loaded database. Non-trivial: a text with >= 2 predicates or interleaved runs loaded over an earlier text, with faults injected. Distinct by case.",
 		"the load model in props/c20", "effects of directives that ran before a fault are not asserted (only output directives are generated); a directive between two clauses of one predicate is never generated")
 	r.Regress(t)
 	if r.Failed() {
